@@ -240,6 +240,33 @@ async fn observe(path: &Path, vt: &str) -> Result<Value, String> {
             others.push(json!([ty, name, tbl, sql]));
         }
     }
+    // the rows of every user table that has any (entry kind "rows"): data written by migration statements is part
+    // of what two runs must agree on
+    let user_tables: Vec<String> = others.iter().filter(|e| e[0] == "table" && !e[1].as_str().unwrap_or("").starts_with("sqlite_"))
+        .map(|e| e[1].as_str().unwrap_or("").to_string()).collect();
+    for t in user_tables {
+        let tq = t.replace('"', "\"\"");
+        let cols = db.query_all_raw(st(&format!("SELECT name FROM pragma_table_info('{}')", t.replace('\'', "''")))).await.map_err(|e| e.to_string())?;
+        let mut names = Vec::new();
+        for c in &cols {
+            let n: String = c.try_get("", "name").map_err(|e| e.to_string())?;
+            names.push(format!("quote(\"{}\")", n.replace('"', "\"\"")));
+        }
+        if names.is_empty() {
+            continue;
+        }
+        let q = format!("SELECT {} AS r FROM \"{}\" ORDER BY rowid", names.join(" || '|' || "), tq);
+        if let Ok(rs) = db.query_all_raw(st(&q)).await {
+            let mut vals = Vec::new();
+            for r in &rs {
+                let v: Option<String> = r.try_get("", "r").unwrap_or(None);
+                vals.push(v.unwrap_or_default());
+            }
+            if !vals.is_empty() {
+                others.push(json!(["rows", t, t, vals.join("\n")]));
+            }
+        }
+    }
     let mut has_id = false;
     let mut vrows = Vec::new();
     if vt_exists {
